@@ -137,3 +137,58 @@ func VH_C15_SourceAddrHash() {
 }
 
 var _ net.Addr = (*vAddr)(nil)
+
+// vstubAddrString stands for netAddr.String() in load_balancer.go (textual redirect, optional). Inside
+// VH_C15_SourceAddrHashIPForms it is the printing contract of package net: a *net.TCPAddr / *net.UDPAddr with the same
+// IPv4 address in 4-byte or in 16-byte (IPv4-in-IPv6) form, the same port and no zone print the same text.
+var (
+	vUseAddrText bool
+	vAddrText    string
+)
+
+func vstubAddrString(a net.Addr) string {
+	if vUseAddrText {
+		return vAddrText
+	}
+	return a.String()
+}
+
+// the same remote address in the two encodings package net uses for IPv4 (accepted on an IPv4 vs a dual-stack listener,
+// accepted vs enrolled) and as TCP or UDP address is served by the same loop: "pure function of the address string"
+// (added for the seeded change C15-r5m1: a fast path that hashes the raw IP bytes)
+//
+// verif: mode=int unwind=300
+func VH_C15_SourceAddrHashIPForms() {
+	lb := new(sourceAddrHashLoadBalancer)
+	n := vPickN(vCfg("maxN", 16))
+	// odd loop counts only: CRC-32 is affine over GF(2), so hashes of related inputs tend to agree in their low bits and
+	// a genuine difference would not reproduce natively for power-of-two counts (all N are covered by VH_C15_SourceAddrHash)
+	vAssume(n >= 3 && n%2 == 1)
+	vLoops(lb, n)
+	b4 := vNondetBytes("ip4", 4)
+	port := vNondetInt("port")
+	vAssume(0 <= port && port <= 65532)
+	ln := vNondetInt("addrlen")
+	vAssume(0 <= ln && ln <= 64)
+	vUseAddrText, vAddrText = true, string(vNondetBytes("addr", ln))
+	ip4 := net.IP{b4[0], b4[1], b4[2], b4[3]}
+	ip16 := net.IP{0, 0, 0, 0, 0, 0, 0, 0, 0, 0, 0xff, 0xff, b4[0], b4[1], b4[2], b4[3]}
+	// four neighbouring ports, each pair compared on its own: an implementation that hashes something else than the
+	// printed text is modelled with arbitrary hash values, and such a counterexample only counts when the real hashes
+	// differ natively as well - four pairs make a coincidence of all of them unlikely (3^-4 for three loops)
+	same := true
+	panicked := vPanics(func() {
+		for i := 0; i < 4; i++ {
+			a := lb.next(&net.TCPAddr{IP: ip4, Port: port + i})
+			b := lb.next(&net.TCPAddr{IP: ip16, Port: port + i})
+			c := lb.next(&net.UDPAddr{IP: ip4, Port: port + i})
+			if a != b || b != c {
+				same = false
+			}
+		}
+	})
+	vUseAddrText = false
+	vAssert("C15.hash.forms.never_panics", !panicked)
+	vAssert("C15.hash.forms.same_loop_for_same_printed_address", same)
+	vReach("C15.hash.forms.end")
+}
